@@ -49,6 +49,7 @@ import PyhamModel.Lemmas.FilterFaults
 import PyhamModel.Lemmas.Meaning
 import PyhamModel.Lemmas.FamilyProfile
 import PyhamModel.Lemmas.Iso
+import PyhamModel.Lemmas.IsoCounts
 namespace Pyham.Props
 open Pyham
 
@@ -502,6 +503,15 @@ theorem C14_comparisons_respect_isomorphism (H H' : Ham) (φ : Node → Node) (h
     (∀ x', x' ∈ (hogsMap H' a d).loss ↔ ∃ x ∈ (hogsMap H a d).loss, x' = φ x) :=
   ⟨fun n' => iso_gain h a d n', fun p' => iso_retained h hw hw' a d p', fun k' n' => iso_duplicated h a d k' n',
    fun x' => iso_loss h hw hw' a d x'⟩
+
+/-- ... and the NUMBERS of every comparison (gained, retained, duplicated genes, duplicated ancestral genes, lost, duplication
+    events), hence the whole-dataset tree profile at every node, are the same for isomorphic analyses (with equal genome
+    sizes): re-ordering families or members, renumbering objects cannot change a tree profile (C09 / C13 / C14) -/
+theorem C14_counts_and_profile_respect_isomorphism (H H' : Ham) (φ : Node → Node) (h : LocIso H H' φ)
+    (hw : H.WFc) (hw' : H'.WFc) :
+    (∀ a d, (hogsMap H' a d).counts = (hogsMap H a d).counts) ∧
+    ((∀ t, H'.genomeSize t = H.genomeSize t) → ∀ t, profileFullAt H' t = profileFullAt H t) :=
+  ⟨fun a d => iso_counts h hw hw' a d, fun hsz t => iso_profile h hw hw' hsz t⟩
 
 /-- instances of the hypothesis: the same analysis (identity), the families stored in another order (a file with its
     top-level groups re-ordered), every object renumbered (other or skipped families loaded before: the creation
